@@ -17,6 +17,7 @@ import (
 	"hash/fnv"
 	"math/rand/v2"
 	"os"
+	"sync"
 )
 
 // Draw is one recorded decision.
@@ -28,6 +29,10 @@ type Draw struct {
 
 // Chooser produces decisions and records them.
 type Chooser struct {
+	// mu guards the tape: policies are called on goroutines of the system under
+	// test (one at a time by construction - see Keyed for the exception - but
+	// never without a lock).
+	mu     sync.Mutex
 	rng    *rand.Rand
 	tape   []int
 	replay bool
@@ -69,6 +74,8 @@ func (c *Chooser) Int(label string, n int) int {
 	if n <= 1 {
 		return 0
 	}
+	c.mu.Lock()
+	defer c.mu.Unlock()
 	var v int
 	if c.replay {
 		if c.pos < len(c.tape) {
